@@ -361,6 +361,40 @@ class Walker(object):
                 return self.cond(v[1], st)
         return self.fact('truth:' + self.norm(t, st), st)
 
+    def cond_states(self, t, st):
+        """[(state, truth)] for a test that may itself consume the stream
+        (`if Boolean.read(f):`), tokens emitted in evaluation order."""
+        if not self.uses_stream(t):
+            return self.split(self.cond(t, st), st)
+        if isinstance(t, ast.UnaryOp) and isinstance(t.op, ast.Not):
+            return [(s, not tr) for s, tr in self.cond_states(t.operand, st)]
+        if isinstance(t, ast.BoolOp):
+            is_and = isinstance(t.op, ast.And)
+            live = [(st, is_and)]
+            done = []
+            for v in t.values:
+                nxt = []
+                for s, _ in live:
+                    for s2, tr in self.cond_states(v, s):
+                        if tr == is_and:
+                            nxt.append((s2, tr))
+                        else:
+                            done.append((s2, tr))
+                live = nxt
+            return done + live
+        n0 = len(st.seq)
+        outs = self.emit_expr(t, st, '?')
+        res = []
+        for s in outs:
+            toks = [x for x in s.seq[n0:] if isinstance(x, Tok)]
+            if self.direct_read(t) and toks and toks[-1].codec == 'Boolean' \
+                    and toks[-1].const is not None:
+                res.append((s, toks[-1].const))
+            else:
+                res.append((s, True))
+                res.append((s.fork(), False))
+        return res
+
     def norm(self, e, st):
         """Text of an expression with loop-substituted names expanded."""
         class T(ast.NodeTransformer):
@@ -420,7 +454,7 @@ class Walker(object):
             return [st]
         if isinstance(n, ast.If):
             out = []
-            for s, truth in self.split(self.cond(n.test, st), st):
+            for s, truth in self.cond_states(n.test, st):
                 out.extend(self.block(n.body if truth else n.orelse, [s]))
             return out
         if isinstance(n, ast.For):
@@ -618,7 +652,7 @@ class Walker(object):
         order.  Returns the list of resulting states."""
         if isinstance(e, ast.IfExp):
             out = []
-            for s, truth in self.split(self.cond(e.test, st), st):
+            for s, truth in self.cond_states(e.test, st):
                 arm = e.body if truth else e.orelse
                 if self.uses_stream(arm):
                     out.extend(self.emit_expr(arm, s, binding))
@@ -642,9 +676,10 @@ class Walker(object):
                         isinstance(st.env[nm.id][1], ast.Constant):
                     b = st.env[nm.id][1].value
                 return self.emit_expr(e.args[2], st, b or '?')
-            # generic call: arguments in order
+            # generic call: callee expression, then arguments in order
             states = [st]
-            for a in list(e.args) + [k.value for k in e.keywords]:
+            for a in ([f] if not isinstance(f, ast.Name) else []) + \
+                    list(e.args) + [k.value for k in e.keywords]:
                 if isinstance(a, ast.Starred):
                     a = a.value
                 if not self.uses_stream(a):
